@@ -18,11 +18,15 @@ TRUSTED = ['Promise::Set / Valid (C01 producer contract), UniqueCore/SharedCore:
            'std::vector: resize(n) gives n slots, reserve allocates once, push_back appends (VEC_* stubs)']
 DROPPED = ['pack expansion of the static form (`(SetCore<Is>(cores), ...)`) is assumed to call SetCore<i> exactly once per i, in order',
            'std::get<Index>(_tuple) = x is TUP_SET(Index, x) with a ghost "slot Index filled from input Index"',
-           'range-for over the vector member _cores is rewritten to an index loop (vocabulary rule)']
+           'range-for over the vector member _cores is rewritten to an index loop (vocabulary rule)',
+           'StaticCombinator::GetCallbackHelper / Init / the Callbacks tuple types (index_of_v, translate_index_v: template metaprogramming over type lists) are not extractable: '
+           'SetCore is proved against "GetCallbackHelper<Index, Core>() is the node reserved for input Index"; that each unordered unique-core TYPE shares one node is the same '
+           'one-node-per-unique-core-type rule the When entry contract states as g_one_node',
+           'the combinator selection `using FinalCombinator = std::conditional_t<COND, A, B>` is translated to (COND\') ? K_A : K_B over free configuration predicates']
 ASSUMPTIONS = ['input Results are not Empty (an Empty Result is neither a value nor a failure; outside what the property states for WhenAll)',
                'every input completes exactly once (C01) - so every callback / inline consumption happens once per input']
 # real-code drivers that exercise what this unit proves (thorough tier: sanity run on the tree under check)
-DRIVERS = [('whenall_tuple.cpp', [], 'default')]
+DRIVERS = [('whenall_tuple.cpp', [], 'default'), ('whenall_shared_overlap.cpp', [], 'default')]
 
 COMMON = r'''
 #include "vf.h"
@@ -320,6 +324,83 @@ __CPROVER_ensures(IS_DYNAMIC ? g_consume_index == g_my_index : g_consume_index =
 void harness(void) { void* s; void* c; g_consumes = g_comb_decrefs = 0; Impl(s, c); VF_CANARY("end"); }
 '''
         job('CombinatorCallback.Impl.dynamic%d' % dyn, b_cb, src, 'Impl', ['ConsumeStatic', 'ConsumeDynamic', 'CombinatorDecRef'])
+    # SingleCombinator::Impl: the one node serves every input, consumed without index
+    def single_impl():
+        b_si = find_body(repo, F_WHEN, r'void\s+Impl\s*\(\s*InlineCore\s*&\s*caller\s*\)', 'SingleCombinator::Impl', within=r'struct\s+SingleCombinator\s*:')
+        pre_s = [(r'auto\s*&\s*core\s*=\s*DownCast<Core>\(caller\)\s*;', 'Core* core = (Core*)caller;', 0), (r'Consume<0>\(\s*st\s*,\s*core\s*\)', 'ConsumeStatic(self, core)', 0),
+                 (r'Consume\(\s*st\s*,\s*core\s*,\s*(\w+)\s*\)', r'ConsumeDynamic(self, core, \1)', 0), (r'(?<![\w.>])DecRef\(\)', 'CombinatorDecRef(self)', 0)]
+        c = Rewriter('SingleCombinator::Impl', pre=pre_s, refs=['caller'], nomembers=['st']).rewrite(b_si.text)
+        src = COMMON + cbstubs + '''void Impl(void* self, void* caller)
+__CPROVER_requires(g_consumes == 0 && g_comb_decrefs == 0)
+__CPROVER_assigns(g_consumes, g_consume_core, g_consume_index, g_comb_decrefs, g_decref_after_consume)
+/* an input completed: consumed exactly once (no index: the single node cannot tell inputs apart), and only then one combinator reference is dropped */
+__CPROVER_ensures(g_consumes == 1 && g_consume_core == (Core*)caller && g_consume_index == ~0UL && g_comb_decrefs == 1 && g_decref_after_consume)
+{''' + c + '''}
+void harness(void) { void* s; void* c; g_consumes = g_comb_decrefs = 0; Impl(s, c); VF_CANARY("end"); }
+'''
+        job('SingleCombinator.Impl', b_si, src, 'Impl', ['ConsumeStatic', 'ConsumeDynamic', 'CombinatorDecRef'])
+    # Here / Next of both callback classes: exactly Impl on the completed input, and no further core to run (the combinator never continues the completing walk)
+    def here_next():
+        for nm, within in (('CombinatorCallback', r'struct\s+CombinatorCallback\s+final'), ('SingleCombinator', r'struct\s+SingleCombinator\s*:')):
+            for meth, sig, ret in (('Here', r'InlineCore\s*\*\s*Here\s*\(\s*InlineCore\s*&\s*caller\s*\)\s*noexcept\s+final', 'RET == (void*)0'),
+                                   ('Next', r'yaclib_std::coroutine_handle<>\s+Next\s*\(\s*InlineCore\s*&\s*caller\s*\)\s*noexcept\s+final', 'RET == NOOP')):
+                b = find_body(repo, F_WHEN, sig, '%s::%s' % (nm, meth), within=within)
+                c = Rewriter('%s::%s' % (nm, meth), pre=[(r'(?<![\w.>])Impl\(\s*caller\s*\)', 'ImplStub(self, caller)', 0), (r'yaclib_std::noop_coroutine\(\)', 'NOOP', 0)], refs=['caller'], nomembers=[]).rewrite(b.text)
+                src = COMMON + '''unsigned g_impls; void* g_impl_caller; static char vf_noop;
+#define NOOP ((void*)&vf_noop)
+void ImplStub(void* self, void* caller) __CPROVER_assigns(g_impls, g_impl_caller) __CPROVER_ensures(g_impls == OLD(g_impls) + 1 && g_impl_caller == caller);
+void* F(void* self, void* caller)
+__CPROVER_requires(g_impls == 0)
+__CPROVER_assigns(g_impls, g_impl_caller)
+__CPROVER_ensures(g_impls == 1 && g_impl_caller == caller && %s)
+{''' % ret + c + '''}
+void harness(void) { void* s; void* c; g_impls = 0; F(s, c); VF_CANARY("end"); }
+'''
+                job('%s.%s' % (nm, meth), b, src, 'F', ['ImplStub'])
+    # SetCore of the static forms: one registration step (what one iteration of the dynamic loops does)
+    def set_core():
+        sc_stubs = '''enum { KP_Owned, KP_Managed };
+unsigned g_regs, g_sets, g_consumes, g_comb_decrefs; unsigned long g_reg_index; Core* g_reg_core; Core* g_set_core; Core* g_consume_core; void* g_set_cb; unsigned char g_set_ok, g_reg_before_set, g_order_ok;
+void Register(void* st, unsigned long i, Core* core) __CPROVER_requires(g_regs == 0 && g_sets == 0) __CPROVER_assigns(g_regs, g_reg_index, g_reg_core) __CPROVER_ensures(g_regs == 1 && g_reg_index == i && g_reg_core == core);
+int SetCallbackOf(Core* core, void* cb) __CPROVER_requires(g_sets == 0) __CPROVER_assigns(g_sets, g_set_core, g_set_cb, g_set_ok, g_reg_before_set)
+  __CPROVER_ensures((RET == 0 || RET == 1) && g_sets == 1 && g_set_core == core && g_set_cb == cb && g_set_ok == RET && g_reg_before_set == (g_regs == 1));
+void ConsumeStatic(void* self, Core* core) __CPROVER_requires(g_sets == 1 && !g_set_ok && g_consumes == 0) __CPROVER_assigns(g_consumes, g_consume_core) __CPROVER_ensures(g_consumes == 1 && g_consume_core == core);
+void CombinatorDecRef(void* self) __CPROVER_requires(g_comb_decrefs == 0) __CPROVER_assigns(g_comb_decrefs, g_order_ok) __CPROVER_ensures(g_comb_decrefs == 1 && g_order_ok == (g_consumes == 1));
+'''
+        sc_post = '''__CPROVER_requires(g_regs == 0 && g_sets == 0 && g_consumes == 0 && g_comb_decrefs == 0)
+__CPROVER_assigns(g_regs, g_reg_index, g_reg_core, g_sets, g_set_core, g_set_cb, g_set_ok, g_reg_before_set, g_consumes, g_consume_core, g_comb_decrefs, g_order_ok)
+/* one registration step: (Owned) the core is registered under ITS index before it can complete; the callback is offered exactly once; an input that was already complete is consumed
+   inline exactly once and one combinator reference dropped after it; a pending input is left to its callback (nothing consumed, no reference dropped) */
+__CPROVER_ensures(g_sets == 1 && g_set_core == core && g_set_cb == EXPECT_CB)
+__CPROVER_ensures(CORE_POLICY == KP_Owned ? (g_regs == 1 && g_reg_index == EXPECT_I && g_reg_core == core && g_reg_before_set) : g_regs == 0)
+__CPROVER_ensures(g_set_ok ? (g_consumes == 0 && g_comb_decrefs == 0) : (g_consumes == 1 && g_consume_core == core && g_comb_decrefs == 1 && g_order_ok))
+'''
+        sc_pre = [(r'Strategy::kCorePolicy\s*==\s*CorePolicy::(\w+)', r'CORE_POLICY == KP_\1', 0), (r'st\.Register\(\s*(\w+)\s*,\s*core\s*\)', r'Register(self, \1, core)', 0),
+                  (r'core\.SetCallback\(\s*\*this\s*\)', 'SetCallbackOf(core, self)', 0), (r'core\.SetCallback\(\s*callback\s*\)', 'SetCallbackOf(core, callback)', 0),
+                  (r'auto\s*&\s*callback\s*=\s*GetCallbackHelper<Index,\s*Core>\(\)\s*;', 'void* callback = GetCallbackHelper(self, Index);', 0),
+                  (r'Consume<(?:0|Index)>\(\s*st\s*,\s*core\s*\)', 'ConsumeStatic(self, core)', 0), (r'(?<![\w.>])DecRef\(\)', 'CombinatorDecRef(self)', 0)]
+        b_ssc = find_body(repo, F_WHEN, r'void\s+SetCore\s*\(\s*Core\s*&\s*core\s*,\s*std::size_t\s+i\s*\)', 'SingleCombinator::SetCore', within=r'struct\s+SingleCombinator\s*:')
+        b_stc = find_body(repo, F_WHEN, r'void\s+SetCore\s*\(\s*Core\s*&\s*core\s*\)', 'StaticCombinator::SetCore', within=r'struct\s+StaticCombinator\s*:')
+        for kp in ('KP_Owned', 'KP_Managed'):
+            c = Rewriter('SingleCombinator::SetCore', pre=sc_pre, refs=['core'], nomembers=['st']).rewrite(b_ssc.text)
+            src = COMMON + '#define CORE_POLICY %s\n#define EXPECT_CB self\n#define EXPECT_I i\n' % kp + sc_stubs + 'void SetCore(void* self, Core* core, size_t i)\n' + sc_post + '{' + c + '''}
+void harness(void) { void* s; Core* c; size_t i; g_regs = g_sets = g_consumes = g_comb_decrefs = 0; SetCore(s, c, i); if (g_set_ok) VF_CANARY("pending"); else VF_CANARY("already complete"); }
+'''
+            job('SingleCombinator.SetCore.%s' % kp[3:], b_ssc, src, 'SetCore', ['Register', 'SetCallbackOf', 'ConsumeStatic', 'CombinatorDecRef'], canaries=2)
+            c = Rewriter('StaticCombinator::SetCore', pre=sc_pre, refs=['core'], nomembers=['st']).rewrite(b_stc.text)
+            src = COMMON + '#define CORE_POLICY %s\n#define EXPECT_CB g_helper_cb\n#define EXPECT_I Index\n' % kp + sc_stubs + '''unsigned long Index; void* g_helper_cb;
+/* GetCallbackHelper<Index, Core>: the callback node reserved for input Index */
+void* GetCallbackHelper(void* self, unsigned long index) __CPROVER_requires(index == Index) __CPROVER_assigns() __CPROVER_ensures(RET == g_helper_cb);
+void SetCore(void* self, Core* core)
+''' + sc_post + '{' + c + '''}
+void harness(void) { void* s; Core* c; g_regs = g_sets = g_consumes = g_comb_decrefs = 0; SetCore(s, c); if (g_set_ok) VF_CANARY("pending"); else VF_CANARY("already complete"); }
+'''
+            job('StaticCombinator.SetCore.%s' % kp[3:], b_stc, src, 'SetCore', ['Register', 'SetCallbackOf', 'ConsumeStatic', 'CombinatorDecRef', 'GetCallbackHelper'], canaries=2)
+    for fn in (single_impl, here_next, set_core):
+        try:
+            fn()
+        except ExtractionBreak as e:      # one function outside the recipe leaves the other jobs of this unit decided
+            ctx.breaks.append(str(e))
     # registration loops: DynamicCombinator::Set and SingleCombinator::Set(Iterator)
     reg_stubs = '''enum { KP_Owned, KP_Managed };
 unsigned long g_next_input;      /* iterator position: inputs are taken in order, each released from its future exactly once */
@@ -470,6 +551,9 @@ __CPROVER_assigns(g_sets, g_set_count) __CPROVER_ensures(g_sets == OLD(g_sets) +
             fn()
         except ExtractionBreak as e:      # one entry function outside the recipe leaves the other jobs of this unit decided
             ctx.breaks.append(str(e))
+    if getattr(ctx, 'prop', None) == 'C10':
+        # WhenAny runs on the same combinator plumbing (entry functions, registration, callbacks, consume dispatch); the WhenAll / Join strategies are not its business
+        out = [j for j in out if re.match(r'when/(Consume\.|CombinatorCallback\.|DynamicCombinator\.|SingleCombinator\.|StaticCombinator\.|When\.)', j.name)]
     return out
 
 
